@@ -2,7 +2,7 @@
     of expressions, scale-covariance checks of the column operators; run at
     exact rationals) and its extraction.
     ExtrOcamlBasic only: Z, positive, Q, nat stay inductive. *)
-From Dino Require Import Base.Ops Base.Sums Model.Sigma Thm.Dual Model.Scaling Extract.Common.
+From Dino Require Import Base.Ops Base.Sums Model.Sigma Model.Implicit Model.PrimEq Thm.Dual Model.Scaling Extract.Common.
 Require Extraction.
 Require Import ExtrOcamlBasic.
 Local Open Scope F_scope.
@@ -84,6 +84,19 @@ Definition run_C12 (cmd : Z) (ints : list Z) (arrs : list (list Q)) : option (li
   | 5%Z => let K := intn ints 0 in let c := factor (scale_at arrs 2) (dim_at ints 1) in
            Some (qtab (K - 1)%nat (centered_difference (arrf arrs 0) (scol c (arrf arrs 1)))
                  ++ qtab (K - 1)%nat (scol c (centered_difference (arrf arrs 0) (arrf arrs 1))))
+  (* nodal primitive-equation terms: ints = K; include_vertical_advection.
+     arrs = [0 ls; 1 b; 2 Tref; 3 [R; kappa]; 4 u; 5 v; 6 vort; 7 div; 8 temp; 9 [gx; gy; sec2; f]; 10 scale] *)
+  | 6%Z => let K := intn ints 0 in let va := intb ints 1 in let s := scale_at arrs 10 in
+           let c := mkPE K (scalar arrs 3 0) (scalar arrs 3 1) (arrf arrs 0) (arrf arrs 1) (arrf arrs 2) in
+           let x := mkNCol (arrf arrs 4) (arrf arrs 5) (arrf arrs 6) (arrf arrs 7) (arrf arrs 8)
+                           (scalar arrs 9 0) (scalar arrs 9 1) (scalar arrs 9 2) (scalar arrs 9 3) in
+           let x' := scale_ncol (factor s d_vel) (factor s d_rate) (factor s d_temp) (factor s d_invlen) x in
+           let c' := scale_cfg (factor s d_temp) (factor s d_gas) c in
+           Some (qtab K (temp_adiabatic c' x') ++ [log_pressure_tendency c' x']
+                 ++ qtab K (combined_u c' va x' (rt_dry c' x')) ++ qtab K (combined_v c' va x' (rt_dry c' x'))
+                 ++ qtab K (scol (factor s d_temp_rate) (temp_adiabatic c x)) ++ [factor s d_rate * log_pressure_tendency c x]
+                 ++ qtab K (scol (factor s d_accel) (combined_u c va x (rt_dry c x)))
+                 ++ qtab K (scol (factor s d_accel) (combined_v c va x (rt_dry c x))))
   | _ => None
   end.
 
